@@ -74,7 +74,20 @@ func (g *Gen) step(fn *ssa.Function, st *State, in ssa.Instruction) {
 		if p.Kind == "heapfield" || p.Kind == "globptr" || (p.Kind == "elemptr" && p.Elem.Ref != "") {
 			g.markEscape(st, v)
 		}
+		if p.Kind == "heapfield" && v.Kind == "ptr" && v.Cell != nil {
+			v = g.promote(st, v)
+		}
 		switch {
+		case p.Kind == "elemfield":
+			g.frameElemStore(st, p.Ref, x.Pos())
+			g.elemFieldStore(st, p.Obj, p.Ref, p.Idx, p.Ty, v)
+		case p.Kind == "elemptr" && p.Elem.Ref != "" && v.Kind == "struct":
+			if stt, el, ok := structElem(p.Elem.Ty); ok {
+				g.frameElemStore(st, p.Elem.Ref, x.Pos())
+				g.elemFieldStore(st, typeName(el), p.Elem.Ref, p.Idx, stt, v)
+			} else {
+				panic(oos("store of a struct into an element of unknown element type"))
+			}
 		case p.Kind == "elemptr" && p.Elem.Ref != "":
 			g.frameElemStore(st, p.Elem.Ref, x.Pos())
 			na := fmt.Sprintf("(store %s %s %s)", g.arr(st, *p.Elem), p.Idx, v.T)
@@ -145,7 +158,7 @@ func (g *Gen) step(fn *ssa.Function, st *State, in ssa.Instruction) {
 	case *ssa.ChangeInterface:
 		g.regs[x] = g.val(st, x.X)
 	case *ssa.MakeInterface:
-		inner := g.val(st, x.X)
+		inner := g.tryPromote(st, g.val(st, x.X)) // a boxed pointer to a local escapes
 		// interface values are abstract identities; a non-nil concrete value makes a non-nil interface
 		// (an interface made from any typed value, even a nil pointer, is itself non-nil)
 		s := g.newSym("iface", "Int")
@@ -160,6 +173,11 @@ func (g *Gen) step(fn *ssa.Function, st *State, in ssa.Instruction) {
 			g.assume(st, fmt.Sprintf("(= (%s %s) %s)", g.uf("payload."+typeName(x.X.Type()), 1, "Int"), s, inner.T))
 		case inner.Kind == "bool":
 			g.assume(st, fmt.Sprintf("(= (%s %s) %s)", g.uf("ispayload."+typeName(x.X.Type()), 1, "Bool"), s, inner.T))
+		case inner.Kind == "opaque" && inner.T != "":
+			// an interface holding a non-nil pointer has the pointer's identity (payloadOf, cast())
+			if _, isPtr := x.X.Type().Underlying().(*types.Pointer); isPtr {
+				g.assume(st, fmt.Sprintf("(=> (not (= %s 0)) (= %s %s))", inner.T, s, inner.T))
+			}
 		}
 		g.regs[x] = r
 	case *ssa.IndexAddr:
@@ -239,7 +257,7 @@ func (g *Gen) step(fn *ssa.Function, st *State, in ssa.Instruction) {
 		for _, b := range x.Bindings {
 			bind = append(bind, g.val(st, b))
 		}
-		g.regs[x] = Val{Kind: "closure", T: "0", Fn: x.Fn.(*ssa.Function), Bind: bind}
+		g.regs[x] = Val{Kind: "closure", T: strID(x.Fn.String()), Fn: x.Fn.(*ssa.Function), Bind: bind}
 	case *ssa.Defer:
 		st.defers[x] = "true"
 	case *ssa.FieldAddr:
@@ -259,6 +277,21 @@ func (g *Gen) step(fn *ssa.Function, st *State, in ssa.Instruction) {
 			g.safety(st, "nil", x.Pos(), fmt.Sprintf("(not (= %s 0))", base.T))
 			g.regs[x] = Val{Kind: "heapfield", T: base.T, Idx: key, Ty: x.Type()}
 			break
+		}
+		if base.Kind == "elemptr" && base.Elem != nil && base.Elem.Ref != "" {
+			// field of a struct element of a slice/array: per-field array heap (structslice.go)
+			if pt, ok := x.X.Type().Underlying().(*types.Pointer); ok {
+				if stt, ok := pt.Elem().Underlying().(*types.Struct); ok {
+					g.regs[x] = Val{Kind: "elemfield", Ref: base.Elem.Ref, Idx: base.Idx, Obj: typeName(pt.Elem()) + "." + stt.Field(x.Field).Name(), Ty: stt.Field(x.Field).Type()}
+					break
+				}
+			}
+		}
+		if base.Kind == "elemfield" {
+			if stt, ok := base.Ty.Underlying().(*types.Struct); ok {
+				g.regs[x] = Val{Kind: "elemfield", Ref: base.Ref, Idx: base.Idx, Obj: base.Obj + "." + stt.Field(x.Field).Name(), Ty: stt.Field(x.Field).Type()}
+				break
+			}
 		}
 		if base.Kind == "elemptr" || base.Kind == "unmodelledptr" {
 			// field of a struct stored inside a slice/array: such elements are not modelled; writes are
@@ -304,6 +337,10 @@ func (g *Gen) load(st *State, x *ssa.UnOp, a Val) Val {
 			panic(oos("load of unknown cell " + a.Cell.Comment))
 		}
 		return v
+	case a.Kind == "elemfield":
+		return g.elemFieldLoad(st, a.Obj, a.Ref, a.Idx, a.Ty, func(k string, b bool) string { return g.hsfGet(st, k, b) })
+	case a.Kind == "elemptr" && a.Elem != nil && a.Elem.Ref != "" && isStructType(x.Type()):
+		return g.elemFieldLoad(st, typeName(x.Type()), a.Elem.Ref, a.Idx, x.Type(), func(k string, b bool) string { return g.hsfGet(st, k, b) })
 	case a.Kind == "elemptr":
 		e := fmt.Sprintf("(select %s %s)", g.arr(st, *a.Elem), a.Idx)
 		return g.elemVal(st, e, x.Type())
